@@ -540,6 +540,9 @@ func (fe *FnExec) checkOnlyClauses() {
 				}
 			case *ssa.MakeInterface:
 				return derives(x.X, depth+1)
+			case *ssa.FieldAddr:
+				// an embedded part of the object (promoted methods take its address)
+				return derives(x.X, depth+1)
 			case *ssa.ChangeInterface:
 				return derives(x.X, depth+1)
 			case *ssa.ChangeType:
@@ -554,7 +557,7 @@ func (fe *FnExec) checkOnlyClauses() {
 			for _, in := range b.Instrs {
 				site := ""
 				switch x := in.(type) {
-				case *ssa.DebugRef, *ssa.MakeInterface, *ssa.ChangeInterface, *ssa.ChangeType:
+				case *ssa.DebugRef, *ssa.MakeInterface, *ssa.ChangeInterface, *ssa.ChangeType, *ssa.FieldAddr:
 					continue
 				case ssa.CallInstruction:
 					c := x.Common()
